@@ -15,6 +15,31 @@ def _is_index(i):
     return isinstance(i, int) and not isinstance(i, bool) or (is_z3(i) and z3.is_int(i))
 
 
+def _is_add(t):
+    return z3.is_app(t) and t.num_args() == 2 and t.decl().name().split('/')[0] == 'add' and t.sort() == V
+
+
+def zero_fold(t, depth=0):
+    """ZERO is the additive identity of element addition: add(ZERO, x) = add(x, ZERO) = x, pushed through if-then-else (so that
+    `arr[i] += x` on an element that is still zero is the same store as `arr[i] = x`)"""
+    if not is_z3(t) or depth > 40:
+        return t
+    if z3.is_app(t) and t.decl().kind() == z3.Z3_OP_ITE and t.sort() == V:
+        return z3.If(t.arg(0), zero_fold(t.arg(1), depth + 1), zero_fold(t.arg(2), depth + 1))
+    if _is_add(t):
+        x, y = zero_fold(t.arg(0), depth + 1), zero_fold(t.arg(1), depth + 1)
+        if z3.eq(x, ZERO):
+            return y
+        if z3.eq(y, ZERO):
+            return x
+        for u, w, left in ((x, y, True), (y, x, False)):
+            if z3.is_app(u) and u.decl().kind() == z3.Z3_OP_ITE and (z3.eq(u.arg(1), ZERO) or z3.eq(u.arg(2), ZERO)):
+                mk = (lambda e: t.decl()(e, w)) if left else (lambda e: t.decl()(w, e))
+                return z3.If(u.arg(0), zero_fold(mk(u.arg(1)), depth + 1), zero_fold(mk(u.arg(2)), depth + 1))
+        return t.decl()(x, y)
+    return t
+
+
 class GridArr:
     pv_types = ('ndarray',)
 
@@ -29,11 +54,13 @@ class GridArr:
         return r
 
     def set(self, idx, val):
-        self.stores.append((tuple(to_int(i) for i in idx), val))
+        self.stores.append((tuple(to_int(i) for i in idx), zero_fold(val)))
 
     def pv_clone(self):
         g = GridArr(self.rank, self.fn, self.shape)
         g.stores = list(self.stores)
+        if hasattr(self, 'dtype'):
+            g.dtype = self.dtype
         return g
 
     def _norm(self, idx):
@@ -59,6 +86,8 @@ class GridArr:
     def pv_getattr(self, ip, attr):
         if attr == 'shape' and self.shape is not None:
             return tuple(self.shape)
+        if attr == 'dtype' and hasattr(self, 'dtype'):
+            return self.dtype
         raise Unsupported('grid: attribute %s' % attr)
 
     def pv_veq(self, other):
